@@ -284,6 +284,9 @@ Definition chk (rows : list row) : bool := replay [] rows.
         chk.known(key, what)
       else:
         chk.violation('oracle', what, pr[key])
+  for b in pr.get('mixed_backends', [{'missing': True}])[:3]:
+    chk.violation('oracle', 'a directory whose back-end changed in the middle of the run (Orbax directories and msgpack files under one prefix, keep=2): a save raised, retention did not '
+                  'leave exactly the two newest steps, or a retained step does not restore', b)
   for b in pr.get('restore_with_target', [{'missing': True}])[:4]:
     chk.violation('oracle', 'restoring a retained step does not return exactly the tree saved at that step (train-state-like trees with lists / tuples / a namedtuple of 1-23 entries, '
                   'three steps with keep=2, restored into a template and with target=None)', b)
